@@ -2,4 +2,4 @@
 From Coq Require Import Extraction ExtrOcamlBasic ZArith NArith List.
 From T38 Require Import Base.Bytes Model.Follow Model.FollowGen.
 Extraction Language OCaml.
-Extraction "model.ml" Z.add Z.of_N Nat.add check_some flen blen bytes_eqb run toy_app grun gstep phase_of proved_cfg proved_ops.
+Extraction "model.ml" Z.add Z.of_N Nat.add check_some flen blen bytes_eqb run toy_app grun gstep phase_of proved_cfg pinned_cfg proved_ops.
